@@ -9,6 +9,8 @@ pub enum Ty {
     Opt(Box<Ty>),
     Tuple(Vec<Ty>),
     Arr(Box<Ty>),
+    /// builder O: `Result<T, RadioError>` of the PHY drivers (an I/O action in `Rt.Phy.IoM`, see phyio.rs)
+    Res(Box<Ty>),
     /// builder L: `heapless::Vec<T, CAP>`: a list and the Lean term of its capacity
     HVec(Box<Ty>, String),
     Unit,
@@ -21,6 +23,7 @@ impl Ty {
             Ty::Bool => "Bool".into(),
             Ty::Named(n) => n.clone(),
             Ty::Opt(t) => format!("(Option {})", t.lean()),
+            Ty::Res(t) => format!("(Except RadioError {})", t.lean()),
             Ty::Tuple(ts) => format!("({})", ts.iter().map(|t| t.lean()).collect::<Vec<_>>().join(" × ")),
             Ty::Arr(t) | Ty::HVec(t, _) => format!("(List {})", t.lean()),
             Ty::Unit => "Unit".into(),
